@@ -146,8 +146,19 @@ pub fn run(ctx: &mut Ctx) {
         (vec![1, 1], Some(vec![0]), Some(vec![0])), (vec![1, 1], Some(vec![0]), Some(vec![1])), (vec![1, 1], Some(vec![0, 1]), Some(vec![1])),
         (vec![2], Some(vec![0]), None), (vec![2], None, Some(vec![0])), (vec![1, 2, 1], Some(vec![2]), Some(vec![0, 2])),
     ];
+    // every key authorisation over three namespaces whose string order differs from their index order:
+    // nameSpaces = every ordered arrangement of every non-empty subset (or absent), dataElements = every subset (or absent)
+    let mut refusal_cases = refusal_cases;
+    let perms: Vec<Vec<usize>> = vec![vec![0], vec![1], vec![2], vec![0, 1], vec![1, 0], vec![0, 2], vec![2, 0], vec![1, 2], vec![2, 1],
+        vec![0, 1, 2], vec![0, 2, 1], vec![1, 0, 2], vec![1, 2, 0], vec![2, 0, 1], vec![2, 1, 0]];
+    let subsets: Vec<Vec<usize>> = vec![vec![0], vec![1], vec![2], vec![0, 1], vec![0, 2], vec![1, 2], vec![0, 1, 2]];
+    for ans in std::iter::once(None).chain(perms.iter().cloned().map(Some)) {
+        for ade in std::iter::once(None).chain(subsets.iter().cloned().map(Some)) {
+            refusal_cases.push((vec![1, 2, 1], ans.clone(), ade));
+        }
+    }
     for (sizes, ans, ade) in refusal_cases {
-        let name = |i: usize| format!("ns{i}");
+        let name = |i: usize| ["org.iso.18013.5.1", "com.example.dmv", "zz.last", "aaa.first"][i % 4].to_string();
         let mut nss: Namespaces = BTreeMap::new();
         for (i, s) in sizes.iter().enumerate() { nss.insert(name(i), (0..*s).map(|j| (format!("e{j}"), Value::Bool(true))).collect()); }
         let mk_vec = |v: &Vec<usize>| { let mut it = v.iter(); let mut nv = NonEmptyVec::new(name(*it.next().unwrap())); for i in it { nv.push(name(*i)); } nv };
@@ -158,7 +169,10 @@ pub fn run(ctx: &mut Ctx) {
         let r = Mdoc::builder().doc_type("d".into()).namespaces(nss).validity_info(world::validity_now()).digest_algorithm(DigestAlgorithm::SHA256)
             .device_key_info(dki).prepare(coset::iana::Algorithm::ES256);
         let f = |o: &Option<Vec<usize>>| match o { None => "none".to_string(), Some(v) => csv(v.iter().map(|x| x.to_string()).collect()) };
-        ctx.emit.corr("refusal", format!("c09.refuse {} {} {}", csv(sizes.iter().map(|x| x.to_string()).collect()), f(&ans), f(&ade)),
-            if r.is_ok() { "accepted".into() } else { "refused".into() });
+        let outcome = if r.is_ok() { "accepted" } else { "refused" };
+        ctx.emit.corr("refusal", format!("c09.refuse {} {} {}", csv(sizes.iter().map(|x| x.to_string()).collect()), f(&ans), f(&ade)), outcome.into());
+        ctx.emit.line("spec", "spec:refusal", format!("spec.c09.refusal {} {} {} {}", csv(sizes.iter().map(|x| x.to_string()).collect()), f(&ans), f(&ade), outcome), "true".into(),
+            serde_json::json!({"namespace_sizes": sizes, "authorised_namespaces": ans.as_ref().map(|v| v.iter().map(|i| name(*i)).collect::<Vec<_>>()),
+                               "authorised_data_elements_in": ade.as_ref().map(|v| v.iter().map(|i| name(*i)).collect::<Vec<_>>()), "outcome": outcome}));
     }
 }
